@@ -24,7 +24,7 @@ fn unhex(s: &str) -> String {
 }
 
 #[derive(Debug, Clone)]
-struct Failure { kind: &'static str, class: String, detail: String, case: String, header: String, flags: Vec<String> }
+struct Failure { kind: &'static str, class: String, detail: String, case: String, header: String, flags: Vec<String>, cpp: bool }
 
 #[derive(Default)]
 struct Stats { failures: Vec<Failure>, known: BTreeMap<String, u64>, counters: BTreeMap<String, u64>, distinct: BTreeSet<String>, samples: Vec<String>, accepted_unresolved: u64 }
@@ -34,7 +34,7 @@ impl Stats {
         self.bump(&format!("failures_{kind}"), 1);
         self.bump(&format!("failclass_{class}"), 1);
         if self.failures.iter().filter(|f| f.class == class).count() < 4 && self.failures.len() < 80 {
-            self.failures.push(Failure { kind, class: class.into(), detail, case: case.name.clone(), header: case.header.clone(), flags: case.flags.clone() });
+            self.failures.push(Failure { kind, class: class.into(), detail, case: case.name.clone(), header: case.header.clone(), flags: case.flags.clone(), cpp: case.cpp });
         }
     }
 }
@@ -634,7 +634,7 @@ fn main() {
     let _ = writeln!(j, " \"distinct_classes\": [{}],", st.distinct.iter().take(300).map(|s| json_str(s)).collect::<Vec<_>>().join(", "));
     let _ = writeln!(j, " \"samples\": [{}],", st.samples.iter().map(|s| json_str(s)).collect::<Vec<_>>().join(", "));
     let _ = writeln!(j, " \"known\": [{}],", st.known.iter().map(|(k, v)| format!("{{\"what\": {}, \"count\": {v}}}", json_str(k))).collect::<Vec<_>>().join(", "));
-    let _ = writeln!(j, " \"failures\": [{}]", st.failures.iter().map(|f| format!("{{\"kind\": {}, \"class\": {}, \"detail\": {}, \"case\": {}, \"header\": {}, \"flags\": [{}]}}", json_str(f.kind), json_str(&f.class), json_str(&f.detail), json_str(&f.case), json_str(&f.header), f.flags.iter().map(|x| json_str(x)).collect::<Vec<_>>().join(", "))).collect::<Vec<_>>().join(",\n  "));
+    let _ = writeln!(j, " \"failures\": [{}]", st.failures.iter().map(|f| format!("{{\"kind\": {}, \"class\": {}, \"detail\": {}, \"case\": {}, \"cpp\": {}, \"header\": {}, \"flags\": [{}]}}", json_str(f.kind), json_str(&f.class), json_str(&f.detail), json_str(&f.case), f.cpp, json_str(&f.header), f.flags.iter().map(|x| json_str(x)).collect::<Vec<_>>().join(", "))).collect::<Vec<_>>().join(",\n  "));
     j.push_str("}\n");
     util::write(&args.out.join("report.json"), &j);
     println!("c01: {} failure records, {} known, counters {:?}", st.failures.len(), st.known.len(), st.counters);
